@@ -43,7 +43,9 @@ func (a jsonMultiset) hashCode(options []Option) [8]byte {
 		h = append(h, v.hashCode(options))
 	}
 	sort.Sort(h)
-	b := make([]byte, 0, len(a)*8)
+	// Start with a constant so that an empty multiset does not hash
+	// like an empty string (both would hash zero bytes).
+	b := []byte{0x2E, 0xB7, 0x60, 0xD9, 0x13, 0xA8, 0x4F, 0xC5} // random bytes
 	for _, c := range h {
 		b = append(b, c[:]...)
 	}
